@@ -139,6 +139,38 @@ def run(ck):
                 big = max(abs(v) for rw in raws for v in rw[r]) > 1e3
                 conj.append(f'Qlist_close {coq_Q(1e-3 if big else 3e-5)} (mean_rows {rows}) {coq_Qlist(P[r].tolist())}')
             cid = len(cases); cases.append((cid, ' && '.join(f'({c})' for c in conj))); meta[cid] = desc
+    # ---- pure leaves: a rare class that lives in one corner of the feature space, so that after the split some leaves train on ONE class only (constant targets:
+    #      zero coefficients, zero gradients, an all-zero un-normalised feature matrix) — every row, near or far, still gets a valid probability row
+    for j in range(ck.n(4, 12)):
+        npl, dpl = [250, 320][(j // 2) % 2], 3          # 250: one split level, the pure half is a leaf at once; 320: the pure half is split again
+        Xp = xr.make_X('random', npl, dpl, rng); yp = (Xp[:, 0] > np.sort(Xp[:, 0])[-7]).astype(np.int64)         # 6 positives, all at the largest x0
+        Xvp = xr.make_X('random', 80, dpl, rng); yvp = (Xvp[:, 0] > np.sort(Xp[:, 0])[-7]).astype(np.int64); yvp[0] = 1; yvp[1] = 0
+        modep = ['zero_one', 'prevalence'][j % 2]
+        paramsp = None if j % 4 == 3 else xr.default_rfm_params(kernel=['l2_high_dim', 'l2', 'l1'][j % 3], iters=[2, 1, 3][j % 3], reg=1e-2, bandwidth=4.0, return_best=bool(j % 4 == 2))
+        descp = dict(kind='pure leaves', j=j, mode=modep, n=npl, positives=int(yp.sum()), default_params=paramsp is None, soft=bool(j % 3 == 1), n_trees=[1, 2][j % 2], seed=ck.seed)
+        xr.seed_all(1260 + j + ck.seed)
+        mp_ = xr.xRFM(rfm_params=paramsp, max_leaf_size=130, n_trees=[1, 2][j % 2], verbose=False, tuning_metric='brier', classification_mode=modep, use_temperature_tuning=False,
+                      split_temperature=(0.5 if j % 3 == 1 else None), refill_size=25)
+        try:
+            with xr.quiet():
+                mp_.fit(torch.tensor(Xp), torch.tensor(yp), torch.tensor(Xvp), torch.tensor(yvp))
+        except Exception as e:
+            ck.count('pure-leaf fit failed')
+            ck.violation(f'no probability row at all: fitting raised {e!r} on an extremely imbalanced binary data set ({int(yp.sum())} positives of {npl}, Brier metric, which is defined '
+                         f'for one-class leaves) on {descp}', dict(descp, error=repr(e)), key=json.dumps(dict(site='proba', what='pure-leaves-fit-raise', mode=modep)))
+            continue
+        from harness import oracle as orc_
+        pure = sum(1 for t in mp_.trees for lf in orc_.tree_leaves(t) if len(set(yp[np.asarray(lf['train_indices'])].tolist())) == 1)
+        ck.count('fits with a leaf trained on one class only' if pure else 'pure-leaf regime without a pure leaf')
+        Qp = np.concatenate([Xp[:40], Xvp[:20], xr.make_X('random', 20, dpl, rng), 1e6 * (np.abs(xr.make_X('random', 2, dpl, rng)) + 1.0)]).astype(np.float32)
+        with xr.quiet():
+            Pp = np.asarray(mp_.predict_proba(torch.tensor(Qp)), dtype=np.float64); labp = np.asarray(mp_.predict(torch.tensor(Qp)))
+        ck.case(dict(descp, pure_leaves=pure), nontrivial=bool(pure))
+        badrows = [r for r in range(len(Qp)) if Pp.shape != (len(Qp), 2) or not (np.all(np.isfinite(Pp[r])) and np.all(Pp[r] >= 0) and abs(Pp[r].sum() - 1) < 1e-5)]
+        if badrows or labp.shape != (len(Qp),) or labp.min() < 0 or labp.max() > 1:
+            ck.violation(f'{len(badrows)} of {len(Qp)} probability rows are not distributions (first: row {badrows[:1]} = {Pp[badrows[0]].tolist() if badrows and Pp.ndim == 2 else None}) '
+                         f'on a model with {pure} leaves trained on one class only, {descp}', dict(descp, rows=Qp[badrows[:3]].tolist() if badrows else [], pure_leaves=pure),
+                         key=json.dumps(dict(site='proba', what='pure-leaves', mode=modep)))
     res = ck.run_bool_cases('proba', HEADER, cases, shard=6)
     bad = [meta[k] for k, v in res.items() if v is not True]
     ck.obligation(f'correspondence: predict_proba of {len(cases)} real fits == Q model (decode/clamp/normalise/tree mean) on the implementation\'s raw leaf outputs',
